@@ -6,5 +6,6 @@ CONSTANTS
   PreStates = {"absent", "Old"}
 INVARIANT TypeOK
 INVARIANT Atomic
+INVARIANT CloseFailureIsAFailure
 PROPERTY HappyPathSucceeds
 PROPERTY Terminates
